@@ -4,27 +4,27 @@ with it and passes without), run the property's check against each, and keep the
 usage: tools/eval_seeds.py C18 [--tier quick] [--also C02,C12]"""
 import argparse, json, os, shutil, subprocess, sys
 VERIF = os.path.dirname(os.path.dirname(os.path.abspath(__file__)))
-ap = argparse.ArgumentParser(); ap.add_argument('pid'); ap.add_argument('--tier', default='quick'); ap.add_argument('--also', default='')
+ap = argparse.ArgumentParser(); ap.add_argument('pid'); ap.add_argument('--tier', default='quick'); ap.add_argument('--also', default=''); ap.add_argument('--src', default='/tmp/seed_%s/out/%s'); ap.add_argument('--suffix', default=''); ap.add_argument('--repo', default='/repo')
 args = ap.parse_args()
 pid = args.pid
 for x in ('A', 'B'):
-    src = '/tmp/seed_%s/out/%s' % (pid, x)
+    src = args.src % (pid, x)
     if not os.path.exists(os.path.join(src, 'patch.diff')):
         continue
-    dst = os.path.join(VERIF, 'seeded', '%s-%s' % (pid, x))
+    dst = os.path.join(VERIF, 'seeded', '%s-%s%s' % (pid, x, args.suffix))
     os.makedirs(dst, exist_ok=True)
     for f in ('patch.diff', 'demo.py', 'notes.md'):
         if os.path.exists(os.path.join(src, f)):
             shutil.copy(os.path.join(src, f), os.path.join(dst, f))
     # demos were written for the agent's worktree: make them importable from /repo
     demo = os.path.join(dst, 'demo.py')
-    txt = open(demo).read().replace('/tmp/seed_%s' % pid, '/repo')
+    txt = open(demo).read().replace(os.path.dirname(os.path.dirname(src)), args.repo)
     open(demo, 'w').write(txt)
     props = ','.join([pid] + [p for p in args.also.split(',') if p])
     out_json = os.path.join(dst, 'run.json')
     cmd = [sys.executable, os.path.join(VERIF, 'tools', 'try_seed.py'), os.path.join(dst, 'patch.diff'), '--props', props,
-           '--tier', args.tier, '--demo', demo, '--json', out_json]
-    print('==== %s-%s' % (pid, x)); sys.stdout.flush()
+           '--tier', args.tier, '--demo', demo, '--json', out_json, '--repo', args.repo]
+    print('==== %s-%s%s' % (pid, x, args.suffix)); sys.stdout.flush()
     subprocess.run(cmd)
     run = json.load(open(out_json)) if os.path.exists(out_json) else {}
     meta_path = os.path.join(dst, 'meta.json')
@@ -39,7 +39,9 @@ for x in ('A', 'B'):
     meta.setdefault('checks_run', {})
     for k, v in run.get('checks', {}).items():
         meta['checks_run']['%s/%s' % (k, args.tier)] = v
-    meta['ran'] = 'tools/try_seed.py seeded/%s-%s/patch.diff --props %s --tier %s --demo seeded/%s-%s/demo.py' % (pid, x, props, args.tier, pid, x)
+    meta['ran'] = 'tools/try_seed.py seeded/%s-%s%s/patch.diff --props %s --tier %s --demo seeded/%s-%s%s/demo.py' % (pid, x, args.suffix, props, args.tier, pid, x, args.suffix)
+    v = run.get('checks', {}).get(pid, {})
+    meta['caught_by_quick_check'] = (v.get('exit') == 1 and v.get('violations', 0) > 0)
     json.dump(meta, open(meta_path, 'w'), indent=1)
     if os.path.exists(out_json):
         os.remove(out_json)
